@@ -212,6 +212,8 @@ class BaseStorage:
             auth_token = {
                 "pubkey": self.service_pubkey,
                 "roles": set(self.authenticator.actions.get(Action.save.value, ())),
+                # also when 'save' is configured for nobody (a read-only relay)
+                "internal": True,
             }
         await self.add_event(event.to_json_object(), auth_token=auth_token)
         return event
